@@ -18,7 +18,10 @@ class C07Spec(explore.Spec):
         self.has_at_state = tier == "thorough"
 
     def configs(self, tier):
-        return [{"version": v, "cb": None} for v in ("2.0", "2.1", "2.2")]
+        out = [{"version": v, "cb": None} for v in ("2.0", "2.1", "2.2")]
+        if tier == "thorough":
+            out += [{"version": "2.2", "cb": None, "flavour": "async"}, {"version": "2.1", "cb": None, "transport": "mqtt"}]
+        return out
 
     def alphabet(self, cfg):
         v = cfg["version"]
